@@ -7,7 +7,12 @@ First the part every renderable shares — `Measurement.get` normalises and clam
 composition model (`Model/Layout.lean`, shared with C01): the measurement of every renderable tree is normal; rendering at the
 reported maximum, or at the reported minimum, produces no line wider than that value (for values at or above the structural
 minimum, inside the domain of C01 — both are corollaries of `C01.render_fits`, which holds at EVERY width from the structural
-minimum up); the text measurement is "widest word / widest line" and a text given its maximum is not wrapped.
+minimum up); a fitted group reports the largest minimum / maximum of its members (`group_measure_is_max`); for a text and for a
+tree the proviso "at or above the structural minimum" can be dropped (`text_render_at_measure_fits`, `tree_render_at_measure_fits`),
+for a framed renderable it cannot (`panel_measure_below_borders_is_only_the_clamp`); the text measurement is "widest word / widest
+line" and a text given its maximum is not wrapped.  The known finding F23 (`progressbar-no-newline`) is machine-checked on the
+measurement side at the end (`known_group_with_progressbar_measure_unsound`).  `Syntax` and `Pretty` are not renderables of C01's
+trees: see "documented non-claims" below.
 -/
 namespace RichModel.C09
 open RichModel RichModel.Frames RichModel.Layout
